@@ -37,7 +37,7 @@ class C04(Spec):
     prop = "C04"
     coq_targets = ["Props/C04.vo"]
     prop_module = "Props.C04"
-    theorems = []
+    theorems = ['C04_bit_copy_no_panic', 'C04_per_readers_no_panic', 'C04_octetstring_reader_no_panic', 'C04_refuted_untrusted_length_alloc', 'C04_read_bit_within_len', 'C04_read_bits_within_len', 'C04_der_total']
     builds = [("default", "dev"), ("default", "release"), ("protobuf", "dev"), ("protobuf", "release")]
     timeout_per_chunk = 600
     xcheck_n = 100
